@@ -5,7 +5,7 @@
 (* (large n: the real code is measured, the table is judged by C17Trace).                                            *)
 EXTENDS ParsleyMachine, Grammar, Json
 
-CONSTANTS Fams, Sizes, RunMachine
+CONSTANTS Fams, Sizes, RunMachine, Variants
 
 LP == Tm(40)
 RP == Tm(41)
@@ -13,6 +13,7 @@ PLUS == Tm(43)
 STAR == Tm(42)
 DIG == Tm(100)
 COMMA == Tm(44)
+RB == Tm(93)
 
 Bodies(f) ==
   CASE f = "lr" -> <<AnyE(<<SeqE("of", <<Ref(1), Bt>>), A>>)>>                         \* P -> P b | a
@@ -27,6 +28,7 @@ Bodies(f) ==
                           AnyE(<<SeqE("of", <<Ref(1), Y>>), Bt>>) >>                    \* Q -> P y | b
     [] f = "hidden" -> <<AnyE(<<SeqE("of", <<Opt(X), Ref(1), Bt>>), A>>)>>             \* P -> x? P b | a
     [] f = "brackets" -> <<AnyE(<<SeqE("of", <<LP, Ref(1), RP>>), A>>)>>               \* P -> ( P ) | a
+    [] f = "brackets2" -> <<AnyE(<<SeqE("of", <<LP, Ref(1), RP>>), SeqE("of", <<LP, Ref(1), RB>>), A>>)>>   \* P -> ( P ) | ( P ] | a
     [] f = "seplist" -> <<SeqE("sepby1", <<A, COMMA>>)>>                               \* L -> a (, a)*
 
 Rep(n, f(_)) == [i \in 1..n |-> f(i)]
@@ -39,26 +41,33 @@ InputOf(f, n) ==
     [] f = "mutual" -> [i \in 1..n |-> IF i = 1 THEN 97 ELSE IF i % 2 = 0 THEN 121 ELSE 120]     \* a y x y x ...  (P=a, Q=P y, P=Q x, ...)
     [] f = "hidden" -> [i \in 1..n |-> IF i = 1 THEN 97 ELSE 98]
     [] f = "brackets" -> LET k == n \div 2 IN [i \in 1..(2 * k + 1) |-> IF i <= k THEN 40 ELSE IF i = k + 1 THEN 97 ELSE 41]
+    [] f = "brackets2" -> LET k == n \div 2 IN [i \in 1..(2 * k + 1) |-> IF i <= k THEN 40 ELSE IF i = k + 1 THEN 97 ELSE IF i % 2 = 0 THEN 41 ELSE 93]
     [] f = "seplist" -> [i \in 1..(IF n % 2 = 0 THEN n + 1 ELSE n) |-> IF i % 2 = 1 THEN 97 ELSE 44]
 
-\* the mutual family: an input a y x y ... of even length ends in y and is derived by Q, not P: parse from the right nonterminal
-RootNT(f, n) == 1
+\* inputs OUTSIDE the family's language (the bound is on work, whatever the outcome): an unclosed nest, a dangling operator /
+\* separator, a foreign last byte
+BadInputOf(f, n) ==
+  LET g == InputOf(f, n) IN
+  CASE f \in {"arithnest", "brackets", "brackets2"} -> SubSeq(g, 1, (n \div 2) + 1)
+    [] f \in {"arith", "seplist"} -> SubSeq(g, 1, Len(g) - 1)
+    [] OTHER -> [g EXCEPT ![Len(g)] = 122]
 
-VARIABLES fam, size
-mvars == <<vars, fam, size>>
+VARIABLES fam, size, variant
+mvars == <<vars, fam, size, variant>>
 
-Init == \E f \in Fams, n \in Sizes :
+Init == \E f \in Fams, n \in Sizes, v \in Variants :
           LET b == Build(Bodies(f))
-              ww == InputOf(f, IF f = "mutual" /\ n % 2 = 0 THEN n + 1 ELSE n)
-          IN /\ fam = f /\ size = Len(ww)
+              n1 == IF f = "mutual" /\ n % 2 = 0 THEN n + 1 ELSE n
+              ww == IF v = "good" THEN InputOf(f, n1) ELSE BadInputOf(f, n1)
+          IN /\ fam = f /\ size = Len(ww) /\ variant = v
              /\ InitWith(b.G, ww, 1, b.root)
-Next == IF RunMachine THEN (Step /\ UNCHANGED <<fam, size>>) \/ (done /\ UNCHANGED mvars) ELSE UNCHANGED mvars
+Next == IF RunMachine THEN (Step /\ UNCHANGED <<fam, size, variant>>) \/ (done /\ UNCHANGED mvars) ELSE UNCHANGED mvars
 
 Finished == IF RunMachine THEN done ELSE TRUE
 Export == Finished =>
-  PrintT(ToJson([fam |-> fam, n |-> size, G |-> G, w |-> w, root |-> Len(G),
+  PrintT(ToJson([fam |-> fam \o "/" \o variant, n |-> size, G |-> G, w |-> w, root |-> Len(G), exp |-> (variant = "good"),
                  mcalls |-> IF RunMachine THEN calls ELSE 0 - 1,
                  mok |-> IF RunMachine THEN ret.res # <<>> ELSE TRUE]))
 \* the families are in the language: the machine accepts every generated input
-Accepts == (RunMachine /\ done) => ret.res # <<>> /\ ret.err = NoErr
+Accepts == (RunMachine /\ done) => ((ret.res # <<>> /\ ret.err = NoErr) <=> (variant = "good"))
 =============================================================================
